@@ -145,6 +145,7 @@ class Contract:
         self.requires: list[ast.expr] = []
         self.ensures: list[ast.expr] = []
         self.raises: list[tuple[str, ast.expr, bool]] = []  # (class, when, exact)
+        self.raise_messages: dict[str, ast.expr] = {}
         self.ghosts: list[tuple[str, ast.expr]] = []
         self.loops: dict[int, LoopContract] = {}
         self.local_kinds: dict[str, Kind] = {}
@@ -185,6 +186,8 @@ class Contract:
                 elif f in ("raises", "may_raise"):
                     when = kw.get("when", ast.Constant(value=True))
                     self.raises.append((ast.unparse(c.args[0]), when, f == "raises"))
+                    if "message" in kw:
+                        self.raise_messages[ast.unparse(c.args[0])] = kw["message"]
                 elif f == "locals":
                     for k, v in kw.items():
                         self.local_kinds[k] = parse_kind(v, kenv)
@@ -493,7 +496,12 @@ class Registry:
         """Associate contracts with the real function objects (for call-site lookup)."""
         for c in self.contracts.values():
             try:
-                m = extract.import_module(c.module)
+                if c.module.startswith("pyxform"):
+                    m = extract.import_module(c.module)
+                else:
+                    import importlib
+
+                    m = importlib.import_module(c.module)
             except Exception:
                 continue
             obj = m
@@ -774,6 +782,16 @@ class Verifier(Engine):
                 allowed.append(self.eval_contract_expr(when, st, {**env, **genv}, only_env=True))
         if allowed:
             self.oblige("raises", f"{rv.cls}@{rv.origin}", st, Or(*allowed), ex.lineno)
+            for cls, when, exact in c.raises:
+                m = c.raise_messages.get(cls)
+                ac = bm.exc_class_of(self, cls)
+                if m is not None and rc is not None and issubclass(rc, ac):
+                    if rv.msg is None:
+                        self.oblige("raises", f"{rv.cls}-message@{rv.origin}", st, z3.BoolVal(False), ex.lineno,
+                                    info={"why": "exception raised without a message"})
+                    else:
+                        goal = self.eval_contract_expr(m, st, {**env, **genv, "message": rv.msg}, only_env=True)
+                        self.oblige("raises", f"{rv.cls}-message@{rv.origin}", st, goal, ex.lineno)
         else:
             self.oblige("safety", f"{rv.cls}@{rv.origin}", st, z3.BoolVal(False), ex.lineno,
                         info={"exception": rv.cls, "origin": rv.origin})
